@@ -329,7 +329,8 @@ func (c *Coordinator) alleviateShardHeadSeries(s *shardInfo, changeAbleShards []
 				continue
 			}
 
-			if os.runtime.HeadSeries+tar.Series < c.option.MaxHeadSeries {
+			if os.runtime.HeadSeries+tar.Series < c.option.MaxHeadSeries &&
+				os.runtime.ProcessSeries+tar.TotalSeries < c.option.MaxProcessSeries {
 				c.log.Infof("need transfer target %d, from %s to %s series = (%d) ", hash, s.shard.ID, os.shard.ID, tar.Series)
 				transferTarget(s, os, hash)
 				total -= tar.Series
